@@ -8,6 +8,7 @@ EXTENDS Integers, Sequences, FiniteSets, TLC
 
 CONSTANTS MaxCalls,       \* length of the call history
           MaxIO,          \* fault positions 1..MaxIO are explored (plus "no fault")
+          TwoFaults,      \* TRUE: a second fault at a later I/O position is explored as well
           MaxPolicyChanges, \* how often the target may change its admission policy between calls (busy now, free later)
           Gen             \* TRUE: carry the history and print terminal behaviours (R2)
 
@@ -25,9 +26,10 @@ VARIABLES policy, fault,          \* environment choices, fixed at Init: fault =
           pch                     \* policy changes so far
 vars == <<policy, fault, io, gone, drv, tgt, told, call, pc, err, ncalls, hist, result, closeFault, viol, pch>>
 
-NoFault == [kind |-> "none", at |-> 0]
+NoFault == [kind |-> "none", at |-> 0, kind2 |-> "none", at2 |-> 0]
 Init == /\ policy \in Policies
-        /\ fault \in {NoFault} \cup [kind : {"raise", "eof"}, at : 1..MaxIO]
+        /\ fault \in {NoFault} \cup [kind : {"raise", "eof"}, at : 1..MaxIO, kind2 : {"none"}, at2 : {0}]
+                     \cup (IF TwoFaults THEN {f \in [kind : {"raise"}, at : 1..MaxIO, kind2 : {"raise", "eof"}, at2 : 1..MaxIO] : f.at < f.at2} ELSE {})
         /\ io = 0 /\ gone = FALSE
         /\ drv = [sock |-> FALSE, opened |-> FALSE, session |-> 0, connected |-> FALSE, ext |-> TRUE, size |-> 4000, cid |-> 0]
         /\ tgt = [sessions |-> {}, conns |-> {}, next |-> 1]
@@ -36,9 +38,9 @@ Init == /\ policy \in Policies
 
 (* ------------------------------------------------ raw I/O ------------------------------------------------ *)
 \* one raw operation: TRUE when it succeeds; the fault fires exactly at its position, a vanished peer fails always
-IoFails == gone \/ io + 1 = fault.at
+IoFails == gone \/ io + 1 = fault.at \/ io + 1 = fault.at2
 IoStep  == /\ io' = io + 1
-           /\ gone' = (gone \/ (io + 1 = fault.at /\ fault.kind = "eof"))
+           /\ gone' = (gone \/ (io + 1 = fault.at /\ fault.kind = "eof") \/ (io + 1 = fault.at2 /\ fault.kind2 = "eof"))
            /\ closeFault' = (closeFault \/ (IoFails /\ call = "close"))
 
 Finish(res) == /\ call' = "idle" /\ pc' = "idle" /\ result' = res /\ ncalls' = ncalls + 1
